@@ -5,7 +5,8 @@ import guards
 
 CLAIMS = ("R1 the function that builds an HttpResponse from raw bytes compares the body length with a number parsed from the content-length header and refuses (Err) on the short side; "
           "R2 the socket is reached only through request_inner, which is called only from request inside tokio::time::timeout, so every await of the exchange is under the caller's timeout; "
-          "R3 in parse_response no slice index or unwrap/expect takes an operand derived from parsed content (only from the position of the header terminator and constants).")
+          "R3 in parse_response no slice index or unwrap/expect takes an operand derived from parsed content (only from the position of the header terminator and constants); "
+          "R4 in the whole client no number parsed out of the peer's bytes sizes an allocation or an index (Vec::reserve/with_capacity/resize, vec![x; n], slicing) unless it first passes through min/clamp with a constant: a declared length is compared, never trusted.")
 NOT_DECIDED = "hang-freedom beyond 'every await is under the timeout'; behaviour of the peer."
 
 H = "distributed::http_client"
@@ -117,6 +118,67 @@ def run(F, R):
                     bad.append(f"index-operand@{g.path}:L{c.line}")
     R.floor("C16.R3", "slice index sites in parse_response", n_idx, 2)
     R.check(not bad, "C16.R3", "parse_response:panic-surface", f"operands derived from parsed content reach a panicking construct: {bad}", pr.loc(), dict(index_sites=n_idx))
+    peer_sized_allocations(F, R)
+
+
+def peer_sized_allocations(F, R):
+    R.rule("C16.R4", "K5 taint", "parse() results in http_client.rs never reach reserve/with_capacity/resize/from_elem/index without a constant bound")
+    SINKS = ("reserve", "reserve_exact", "try_reserve", "with_capacity", "resize", "resize_with", "from_elem", "repeat", "set_len", "split_at", "split_off", "truncate", "index", "index_mut", "get_unchecked", "advance", "take")
+    PASSTHRU = ("unwrap", "unwrap_or", "unwrap_or_default", "expect", "ok", "branch", "from_residual", "map", "and_then", "ok_or", "ok_or_else", "copied", "cloned", "into", "from", "try_into", "try_from", "unwrap_or_else", "saturating_sub", "wrapping_sub", "checked_sub", "saturating_add", "checked_add", "wrapping_add", "flatten", "transpose", "filter", "find_map", "next", "last", "max")
+    n_src = 0
+    found = []
+    for g in F.in_file("src/distributed/http_client.rs"):
+        if F.bodies[g.path]["kind"] not in ("fn", "method", "closure", "coroutine"):
+            continue
+        srcs = [c for c in g.calls() if c.name.rsplit("::", 1)[-1] in ("parse", "from_str_radix", "from_str") and c.dest]
+        # a helper of this file that returns a parsed number is a source as well
+        for c in g.calls():
+            if c.name.startswith(H + "::") and c.name in F.bodies and c.dest and any(x.name.rsplit("::", 1)[-1] in ("parse", "from_str_radix") for x in F.fam_calls(c.name)) \
+                    and any(t in g.local_ty(place_local(c.dest)) for t in ("usize", "u64", "u32", "i64")):
+                srcs.append(c)
+        n_src += len(srcs)
+        tainted, work = set(), [place_local(c.dest) for c in srcs if "|" not in c.dest]
+        while work:
+            l = work.pop()
+            if l in tainted:
+                continue
+            tainted.add(l)
+            for u in uses_of_local(g, l):
+                if u[0] == "stmt":
+                    dst, rv = u[2], u[3]
+                    if "|" in dst:
+                        continue
+                    if rv[0] in ("use", "ref", "cast", "discr") or (rv[0] == "agg" and (rv[1] == "tuple" or "Option::Some" in rv[1] or "Range" in rv[1])):
+                        work.append(place_local(dst))
+                    elif rv[0] == "bin" and rv[1] in ("Sub", "Add", "Mul", "SubWithOverflow", "AddWithOverflow", "MulWithOverflow", "SubUnchecked", "AddUnchecked"):
+                        work.append(place_local(dst))
+                elif u[0] == "call":
+                    c, ai = u[1], u[2]
+                    last = c.name.rsplit("::", 1)[-1]
+                    if last in ("min", "clamp"):
+                        others = [a for k_, a in enumerate(c.args) if k_ != ai]
+                        if any(origin(g, a)[0] == "const" for a in others):
+                            continue   # bounded by a constant
+                        if c.dest and "|" not in c.dest:
+                            work.append(place_local(c.dest))
+                    elif last in SINKS and ai >= (1 if last not in ("with_capacity", "from_elem", "repeat") else 0):
+                        if last == "take" and "Option" in (c.self_ty or ""):
+                            continue
+                        found.append((g, c, last))
+                    elif last in PASSTHRU and c.dest and "|" not in c.dest:
+                        work.append(place_local(c.dest))
+                    else:
+                        # closures given to map/and_then: parameter 2 of the closure carries the value
+                        pass
+    R.floor("C16.R4", "numbers parsed from peer bytes in http_client.rs", n_src, 1)
+    seen = set()
+    for g, c, last in found:
+        root = F.bodies[g.path].get("root") or g.path
+        if (root, last) in seen:
+            continue
+        seen.add((root, last))
+        R.bad("C16.R4", f"{root}:{last}-sized-by-peer", f"a number the peer declared (parsed from its response) sizes `{last}`: an absurd Content-Length makes the client panic (capacity overflow / out-of-range) or allocate without bound instead of returning an error", g.loc(c.bb), dict())
+    R.ok("C16.R4", "declared-lengths-compared-not-trusted", dict(parsed_numbers=n_src, sinks=len(seen)))
 
 
 def _only_from(fn, op, allowed_calls, depth=0, seen=None):
